@@ -213,3 +213,22 @@ func vfWriteFile(fs FileSystem, name, content string) error {
 	}
 	return f.Close()
 }
+
+// vfRefClean is path.Clean("/"+name) written out from its documentation (split on '/', drop
+// empty and "." elements, ".." removes the element before it, never above the root), so that
+// the monitors do not use slashClean or path.Clean as their own oracle.
+func vfRefClean(name string) string {
+	var out []string
+	for _, seg := range strings.Split(name, "/") {
+		switch seg {
+		case "", ".":
+		case "..":
+			if len(out) > 0 {
+				out = out[:len(out)-1]
+			}
+		default:
+			out = append(out, seg)
+		}
+	}
+	return "/" + strings.Join(out, "/")
+}
